@@ -272,10 +272,12 @@ func performSeek(ctx context.Context, ps Store, memRes []KeyValueExists, rng See
 				var isMem = haveMem && cmpFunc(kvMem.Key, kvPs.Key) < 0
 				if isMem {
 					if kvMem.Exists {
+						// Do not modify kvMem.Key: it is compared with kvPs.Key below.
+						k := kvMem.Key
 						if cutPrefix {
-							kvMem.Key = kvMem.Key[lPrefix:]
+							k = k[lPrefix:]
 						}
-						if !cont(kvMem.Key, kvMem.Value) {
+						if !cont(k, kvMem.Value) {
 							done = true
 							return false
 						}
@@ -288,7 +290,7 @@ func performSeek(ctx context.Context, ps Store, memRes []KeyValueExists, rng See
 						haveMem = false
 					}
 				} else {
-					if !bytes.Equal(kvMem.Key, kvPs.Key) {
+					if !haveMem || !bytes.Equal(kvMem.Key, kvPs.Key) {
 						if cutPrefix {
 							kvPs.Key = kvPs.Key[lPrefix:]
 						}
